@@ -51,6 +51,8 @@ func (h *slowHandler) HandleEvent(serf.Event) {
 }
 
 func bodyC25StopRace(c *c25StopRace, x *vkit.Ctx) {
+	lockYield(c.SlowUs % 3)
+	defer lockYield(0)
 	r, err := newRig(rigOpts{Loopback: true})
 	if err != nil {
 		x.Inconclusive("rig: " + err.Error())
